@@ -637,9 +637,20 @@ def elem_case(draw, tier):
     case = {'d1': d1, 'xs': xs, 'mode': mode, 'inplace': draw(st.booleans()), 'trailing': draw(st.sampled_from(['', '', '1']))}
     k1 = dt_from_json(d1).kind
     if mode in ('array', 'cmp_array'):
-        d2 = draw(numeric_dtype())
+        d2 = draw(numeric_dtype()) if draw(st.integers(0, 2)) else d1       # the same dtype on both sides a third of the time
         case['d2'] = d2
         case['ys'] = [draw(small_value(d2)) for _ in range(n if draw(st.integers(0, 9)) else n + 1)]
+        if mode == 'cmp_array' and k1 == 'float' and dt_from_json(d2).kind == 'float' and n:
+            # comparisons are by value: NaN is unequal to itself, +0.0 equals -0.0 - pair such items up
+            specials = [0.0, -0.0, math.nan, math.inf, -math.inf, 1.0]
+            for i in range(min(n, len(case['ys']))):
+                if draw(st.integers(0, 2)) == 0:
+                    u, v = draw(st.sampled_from(specials)), draw(st.sampled_from(specials))
+                    du, dv = dt_from_json(d1), dt_from_json(d2)
+                    try:
+                        case['xs'][i], case['ys'][i] = du.dec(du.enc(u)), dv.dec(dv.enc(v))
+                    except (ValueError, OverflowError, TypeError):
+                        pass
         k2 = dt_from_json(d2).kind
         both_int = k1 != 'float' and k2 != 'float'
         ops = (['add', 'sub', 'mul', 'floordiv', 'mod'] + (['lshift', 'rshift'] if both_int else []) + ([] if both_int else ['truediv'])) if mode == 'array' else CMP
